@@ -31,15 +31,23 @@ Step(ev) ==
   IF ~(AllFinM(ev.L) /\ IsCholesky(ev.cholM, M))
   THEN R({"C13.returned_matrix_is_finite_SPD"}, {"C13.returned_matrix_is_finite_SPD"})
   ELSE IF ~inputPD THEN R({}, {"C13.returned_matrix_is_finite_SPD", "X13.input_matrix_not_positive_definite"})
-  ELSE IF ~(ev.has_W /\ IsCholesky(ev.cholW, ev.W) /\ DualFeasible(ev.W, E, ev.alpha))
-       THEN R({}, {"C13.returned_matrix_is_finite_SPD", "X13.no_dual_feasible_witness"})
   ELSE LET gM == Primal(E, M, ev.alpha, ev.logsM)
-           dW == Dual(ev.W, ev.logsW)
-           gap == Sub(gM, dW)
            tolGap == Mul(Add(One, Abs(gM)), <<1, -1, <<256>>>>)        \* 2^-7 (1 + |g|)
-       IN IF Lt(gap, Neg(tolGap)) THEN R({}, {"X13.inconsistent_witnesses_negative_gap"})
-          ELSE R(G("C13.objective_within_solver_tolerance_of_optimum", Leq(gap, tolGap)),
+           \* M is shown NOT to be a minimiser by a verified positive definite matrix with a clearly lower objective value
+           refuted == ev.has_star /\ IsCholesky(ev.cholStar, ev.Mstar)
+                      /\ Gt(Sub(gM, Primal(E, ev.Mstar, ev.alpha, ev.logsStar)), tolGap)
+           \* M is shown to be a minimiser (to within the tolerance) by a verified dual-feasible point (weak duality)
+           dualOK == ev.has_W /\ IsCholesky(ev.cholW, ev.W) /\ DualFeasible(ev.W, E, ev.alpha)
+           gap == Sub(gM, Dual(ev.W, ev.logsW))
+       IN IF refuted
+          THEN R({"C13.objective_within_solver_tolerance_of_optimum"},
                  {"C13.returned_matrix_is_finite_SPD", "C13.objective_within_solver_tolerance_of_optimum"})
+          ELSE IF ~dualOK THEN R({}, {"C13.returned_matrix_is_finite_SPD", "X13.no_dual_feasible_witness"})
+          ELSE IF Lt(gap, Neg(tolGap)) THEN R({}, {"X13.inconsistent_witnesses_negative_gap"})
+          ELSE IF Leq(gap, tolGap)
+          THEN R({}, {"C13.returned_matrix_is_finite_SPD", "C13.objective_within_solver_tolerance_of_optimum"})
+          \* neither proven optimal (the dual witness may be weak) nor refuted
+          ELSE R({}, {"C13.returned_matrix_is_finite_SPD", "X13.gap_not_closed_by_the_witnesses"})
 
 Init == tid \in 1..Len(Traces) /\ l = 1 /\ fails = {} /\ ex = {}
 Next == /\ l <= Len(Traces[tid].events)
